@@ -50,7 +50,7 @@ def fault_fails(recs, texts):
                     "%s returned an error after a failing %s call (#%d, in %s) but the tree changed: before %s, after %s" %
                     (op, d["kind"], d["pos"], d["site"], d.get("before", "")[:200], d.get("after", "")[:200]),
                     {"op": op, "site": d["site"], "kind": d["kind"], "pos": d["pos"], "history": d["hist"], "engine": "faults",
-                     "post_size": d.get("post_size", ""), "post_contents": d.get("post_contents", "")})))
+                     "post_size": d.get("post_size", ""), "post_contents": d.get("post_contents", ""), "post_height": d.get("post_height", "")})))
             elif not d["retry_same"]:
                 fails.append((texts.get(d["hist"], ""), Fail("retry", d["index"],
                     "%s failed cleanly on a failing %s call (#%d, in %s) but the retry did not give the normal result: %s vs %s" %
@@ -159,6 +159,21 @@ def sched(eng):
     return {"fails": fails, "evaluations": len(recs), "distinct": list(orders) + ["%s/%s" % (d["hist"], d.get("fail_names")) for d in recs if d["mode"] == "fault"],
             "coverage": {"sched_histories": len(hs), "runs": dict(stats), "tree_shapes": dict(shapes), "writes_per_persist_histogram(by 10)": dict(writes)},
             "samples": [r for r in recs if r["mode"] != "control"][:2]}
+
+def sched_names(eng):
+    """C08: a name denotes one contents, also after a failed persist: the fault-detour runs of the schedule engine
+    (cache-sharing histories only; fewer of them than C03 runs)"""
+    rng = random.Random(eng.seed * 13 + 5)
+    n = 16 if eng.tier == "quick" else 160
+    hs = [h for h in gen.prof_sched(rng, 3 * n, eng.tier) if h.cache != "none"][:n]
+    texts = {}
+    for i, h in enumerate(hs):
+        h.id = "%s-s%d-%d" % (h.id, eng.seed, i); texts[h.id] = h.text()
+    recs = run_mode(eng, "sched", "".join(h.text() for h in hs), "schednames")
+    fails, stats, _ = sched_fails([d for d in recs if d["mode"] == "fault-detour"], texts)
+    fails = [(t, Fail("name", f.idx, f.msg, f.extra)) for t, f in fails]
+    return {"fails": fails, "evaluations": sum(1 for d in recs if d["mode"] == "fault-detour"), "distinct": [],
+            "coverage": {"fault_detour_runs": dict(stats), "cache_sharing_histories": len(hs)}, "samples": []}
 
 def minimise_sched(eng, text, fail):
     return text, fail
